@@ -544,12 +544,12 @@ def generate(rng, tier, mult):
         out.append({"kind": "events", "req": gen_small_req(rng, max_funcs=3, max_size=3), "old": False, "tag": "events"})
     for _ in range(max(2, n_ev // 5)):
         out.append({"kind": "events", "req": gen_small_req(rng, max_funcs=3, max_size=3), "old": True, "tag": "events-old"})
-    n_pipes = (6 if tier == "quick" else 40) * mult
+    n_pipes = (5 if tier == "quick" else 40) * mult
     for q in range(n_pipes):
         st = ["file_array", "dict"][q % 2]
         out += crash_cases(rng, gen_small_req(rng, storage=st), False, every=True, max_pairs=6 if tier == "quick" else 25)
     # user-function raise points only (run_map persists the memory-based storages in its `finally`)
-    for q in range((8 if tier == "quick" else 80) * mult):
+    for q in range((6 if tier == "quick" else 80) * mult):
         st = ["dict", "shared_memory_dict", "file_array", "dict"][q % 4]
         out += crash_cases(rng, gen_small_req(rng, storage=st, max_funcs=3), False, every=False, max_pairs=0, only_fail=True)
     # shared_memory_dict: all crash points of a few pipelines
